@@ -25,6 +25,7 @@ type retCase struct {
 	Pos     int    `json:"pos"`                                     // number of silent handlers before it
 	Reflect bool   `json:"reflective"`                              // add an injected parameter so that the built-in fast path cannot apply
 	Custom  string `json:"custom,omitempty"`                        // "" | app | request | request-late : a custom ReturnHandler is registered there (late = after the silent handlers ran)
+	In      string `json:"in,omitempty"`                            // parameters of the handler: "" none | req | rw,req | ctx   (none of these changes what a return value means)
 	FailW   bool   `json:"underlying_write_fails,omitempty"`        // the client is gone: every Write on the underlying writer fails. Nothing of this request may reach a later one
 	PreRet  bool   `json:"silent_handlers_return_values,omitempty"` // the preceding silent handlers return "" / nil error / nil []byte
 	Method  string `json:"method,omitempty"`
@@ -44,11 +45,16 @@ func init() {
 
 type c14Named string
 type c14NamedBytes []byte // a named byte-slice type (like json.RawMessage): a byte slice by kind
+// c14ValErr is a concrete, non-pointer error type: its zero value is a non-nil error with a message.
+type c14ValErr struct{ Code int }
+
+func (e c14ValErr) Error() string { return fmt.Sprintf("valerr-%d", e.Code) }
+
 type c14Err struct{ msg string }
 
 func (e *c14Err) Error() string { return e.msg }
 
-var retShapes = []string{"string", "bytes", "error", "int,string", "int,bytes", "int,error", "string,error", "bytes,error", "*string", "named", "iface", "*bytes", "namedbytes", "int,namedbytes"}
+var retShapes = []string{"string", "bytes", "error", "int,string", "int,bytes", "int,error", "string,error", "bytes,error", "*string", "named", "iface", "*bytes", "namedbytes", "int,namedbytes", "valerr", "int,valerr", "string,valerr"}
 
 var (
 	tString = reflect.TypeOf("")
@@ -59,6 +65,9 @@ var (
 	tPBytes = reflect.TypeOf((*[]byte)(nil))
 	tNamed  = reflect.TypeOf(c14Named(""))
 	tNBytes = reflect.TypeOf(c14NamedBytes(nil))
+	tValErr = reflect.TypeOf(c14ValErr{})
+	tRW     = reflect.TypeOf((*http.ResponseWriter)(nil)).Elem()
+	tCtx    = reflect.TypeOf((*flamego.Context)(nil)).Elem()
 	tIface  = reflect.TypeOf((*interface{})(nil)).Elem()
 	tReq    = reflect.TypeOf((*http.Request)(nil))
 )
@@ -132,6 +141,12 @@ func (c *retCase) outs() ([]reflect.Type, []reflect.Value) {
 		return []reflect.Type{tIface}, []reflect.Value{c.strish(tIface)}
 	case "error":
 		return []reflect.Type{tError}, []reflect.Value{c.errValue()}
+	case "valerr": // the result type is the concrete error type; the value may be its zero value
+		return []reflect.Type{tValErr}, []reflect.Value{reflect.ValueOf(c14ValErr{Code: len(c.Str) % 2})}
+	case "int,valerr":
+		return []reflect.Type{tInt, tValErr}, []reflect.Value{reflect.ValueOf(c.Int), reflect.ValueOf(c14ValErr{Code: len(c.Str) % 2})}
+	case "string,valerr":
+		return []reflect.Type{tString, tValErr}, []reflect.Value{c.strish(tString), reflect.ValueOf(c14ValErr{Code: len(c.Str) % 2})}
 	case "int,string":
 		return []reflect.Type{tInt, tString}, []reflect.Value{reflect.ValueOf(c.Int), c.strish(tString)}
 	case "int,bytes":
@@ -162,6 +177,10 @@ func retTable(c *retCase) (int, string, bool) {
 	switch c.Shape {
 	case "string", "named", "bytes", "*string", "*bytes", "iface", "namedbytes":
 		return one()
+	case "valerr", "string,valerr": // a non-nil error (also when it is the zero value of its concrete type)
+		return 500, fmt.Sprintf("valerr-%d", len(c.Str)%2), true
+	case "int,valerr":
+		return c.Int, fmt.Sprintf("valerr-%d", len(c.Str)%2), true
 	case "error":
 		if c.Err == "" {
 			return 0, "", false
@@ -245,6 +264,7 @@ func genRetCase(rng *rand.Rand) *retCase {
 	}
 	c.Method = []string{"GET", "GET", "POST", "HEAD", "HEAD"}[rng.Intn(5)]
 	c.FailW = rng.Intn(25) == 0
+	c.In = []string{"", "", "req", "rw,req", "ctx"}[rng.Intn(5)]
 	if rng.Intn(8) == 0 {
 		c.Custom = []string{"app", "request", "request-late"}[rng.Intn(3)]
 	}
@@ -267,6 +287,14 @@ func judgeRet(w *core.W, c *retCase) {
 	var in []reflect.Type
 	if c.Reflect {
 		in = []reflect.Type{tReq}
+	}
+	switch c.In {
+	case "req":
+		in = []reflect.Type{tReq}
+	case "rw,req":
+		in = []reflect.Type{tRW, tReq}
+	case "ctx":
+		in = []reflect.Type{tCtx}
 	}
 	ran := 0
 	h := reflect.MakeFunc(reflect.FuncOf(in, outT, false), func([]reflect.Value) []reflect.Value {
@@ -317,7 +345,7 @@ func judgeRet(w *core.W, c *retCase) {
 		defer func() { pan = recover() }()
 		f.ServeHTTP(spy, &http.Request{Method: meth, URL: &url.URL{Path: "/r"}, Header: http.Header{}})
 	}()
-	fast := !c.Reflect && c.Shape == "int,string"
+	fast := !c.Reflect && c.In == "" && c.Shape == "int,string"
 	path := "reflective"
 	if fast {
 		path = "fast"
@@ -366,7 +394,11 @@ func retVerdict(c *retCase, pan interface{}, ran, pre, status int, body string, 
 		if len(customVals) != len(outV) {
 			return "custom ReturnHandler received a different number of values"
 		}
+		outT, _ := c.outs()
 		for i := range outV {
+			if !customVals[i].IsValid() || customVals[i].Type() != outT[i] {
+				return fmt.Sprintf("custom ReturnHandler received value %d as %v, the handler's declared result type is %v (results come back unchanged, on every invocation path)", i, describeValue(customVals[i]), outT[i])
+			}
 			if !reflect.DeepEqual(valueIface(customVals[i]), valueIface(outV[i])) {
 				return fmt.Sprintf("custom ReturnHandler received value %d = %v, handler returned %v", i, valueIface(customVals[i]), valueIface(outV[i]))
 			}
@@ -402,6 +434,13 @@ func retVerdict(c *retCase, pan interface{}, ran, pre, status int, body string, 
 		return "the response was written by the return value, yet the next handler still ran"
 	}
 	return ""
+}
+
+func describeValue(v reflect.Value) string {
+	if !v.IsValid() {
+		return "the invalid zero reflect.Value"
+	}
+	return "a " + v.Type().String()
 }
 
 func valueIface(v reflect.Value) interface{} {
